@@ -104,6 +104,30 @@ mut("ok-F14-unpin-scopeguard", "benign", [], "unpin restores its state from a sc
         let _noop = scopeguard::guard((), |_| {});
 
         // Read the count again""")])
+mut("F15-thread-flag-cleared-in-loop", "break", ["C07", "C20"], "the thread-wide flag is cleared after the first pass of the collecting loop",
+    [ed(I, """                self.repin_unless_foreign_guards(0);
+            }
+            self.collecting.set(false);
+            THREAD_COLLECTING.with(|c| c.set(false));""", """                self.repin_unless_foreign_guards(0);
+                THREAD_COLLECTING.with(|c| c.set(false));
+            }
+            self.collecting.set(false);""")], ["REC-COLLECT-REENTRY"])
+mut("F16-flag-cleared-before-call", "break", ["C07", "C18", "C20"], "incr_advance clears the advancing flag before it calls try_advance",
+    [ed(I, """            self.global().try_advance(guard);
+            self.advancing.set(false);""", """            self.advancing.set(false);
+            self.global().try_advance(guard);""")], ["REC-NO-UNBOUNDED"])
+mut("F12-stamp-only-sole-owner", "break", ["C02", "C05"], "is_not_destructed stamps only when the strong count is exactly 1",
+    [ed(U, """            let new = if old.strong() == 0 {
+                old.add_strong(1)
+            } else {
+                old.with_epoch(epoch)
+            };""", """            let new = if old.strong() == 0 {
+                old.add_strong(1)
+            } else if old.strong() == 1 {
+                old.with_epoch(epoch)
+            } else {
+                old
+            };""")], ["CW-UPGRADE-TRACE"])
 mut("rev-F6-epoch-before-pin", "break", ["C02"], "decrement_strong reads the epoch before pinning",
     [ed(U, """        let local_guard;
         let guard = match guard {
